@@ -360,6 +360,22 @@ class ComposedNode(ConfigNode):
         new._children = {}
         return new
 
+    def __deepcopy__(self, memo):
+        # attach (copies of) the children before the attributes are restored - like unpickling does - so that all flags
+        # are copied as they are; going through __reduce__ the copy module would restore the attributes first and the
+        # children would then be adopted through the usual mutators, which derive their inherited flags from the parent again
+        import copy
+        new = ComposedNode._recreate(type(self))
+        memo[id(self)] = new
+        if isinstance(self, list):
+            for child in self:
+                new.append(copy.deepcopy(child, memo))
+        elif isinstance(self, dict):
+            for name, child in self.items():
+                new[copy.deepcopy(name, memo)] = copy.deepcopy(child, memo)
+        new.__setstate__(copy.deepcopy(self.__getstate__(), memo))
+        return new
+
     def __reduce__(self):
         state = self.__getstate__()
         lit = None
